@@ -664,7 +664,25 @@ func checkC11(w *World, c *Check, tier string) {
 		}
 		for _, call := range callsIn(fn) {
 			cal := call.Common().StaticCallee()
-			if cal == nil || len(call.Common().Args) == 0 || !dominatesAllReturns(call.Block()) {
+			if cal == nil || len(call.Common().Args) == 0 {
+				continue
+			}
+			if cal == cleanRecipients && !dominatesAllReturns(call.Block()) {
+				// for _, p := range [...]*Item{&x.A, &x.B} { CleanRecipients(*p) }: every listed property, on every trip
+				if ld, isLoad := unwrap(call.Common().Args[0]).(*ssa.UnOp); isLoad && ld.Op == token.MUL {
+					if elems, h, isLit := rangedLiteralElem(ld.X); isLit && everyIteration(call.Block(), h) && dominatesAllReturns(h) {
+						for _, e := range elems {
+							if fa, isFA := e.(*ssa.FieldAddr); isFA {
+								if fp, ok := pr.structPath(fa, 0); ok && len(fp.Idx) == 1 && fp.Root == pr.canonicalRoot(fn.Params[recv]) {
+									got[fp.Names[0]] = true
+								}
+							}
+						}
+					}
+				}
+				continue
+			}
+			if !dominatesAllReturns(call.Block()) {
 				continue
 			}
 			if cal == cleanRecipients {
